@@ -423,6 +423,9 @@ FREE_S = FREE + [
     ("ci", _cell(INT), ("mut", INT, I(4))), ("cf", _cell(FLOAT), ("mut", FLOAT, ("f", 0.5))), ("cs", _cell(STR), ("mut", STR, ("s", "c"))),
     ("cb", _cell(BOOL), ("mut", BOOL, ("false",))), ("ca", _cell(arr(INT)), ("mut", arr(INT), ("array", [I(1)]))),
     ("cu", _cell(multi(INT, STR)), ("mut", multi(INT, STR), I(2))),
+    # structs: a struct, and a union of struct types that share the field `a`
+    ("pst", ("struct", (("a", INT), ("b", STR))), ("struct", [("a", I(1)), ("b", ("s", "x"))])),
+    ("psu", multi(("struct", (("a", INT),)), ("struct", (("a", FLOAT), ("c", BOOL)))), ("struct", [("a", I(2))])),
     # union-typed OPERANDS: a union of tuple types, of cell types, of function types (and `pua`, a union of indexable types)
     ("put", multi(tup(INT, STR), tup(FLOAT, STR, BOOL)), ("tuple", [I(1), ("s", "t")])),
     ("puc", multi(_cell(INT), _cell(multi(INT, FLOAT))), ("mut", INT, I(1))),
@@ -510,6 +513,19 @@ class GenS(GenF):
                 opts.append(("at", ("slice", V("pua"), bb(), bb(), bb()), self.ftyped(INT, env, d - 1, noise)))
             if ty == multi(INT, STR) and "puf" in names:
                 opts.append(("call", V("puf"), [self.ftyped(FLOAT if wrong else INT, env, d - 1, noise)]))
+            if ty == INT and "pst" in names:
+                opts.append(("facc", V("pst"), "zz" if wrong else "a"))
+                # a struct literal (sometimes repeating a field name: the last initialiser wins), read back
+                fl = [("a", self.ftyped(STR if r.random() < 0.3 else INT, env, d - 1, noise)), ("k", self.ftyped(r.choice(self.TYPES), env, d - 1, noise))]
+                if fl[0][1] is not None and r.random() < 0.7:
+                    fl.append(("a", self.ftyped(INT, env, d - 1, noise)))
+                elif r.random() < 0.5:
+                    fl[0] = ("a", self.ftyped(INT, env, d - 1, noise))
+                opts.append(("facc", ("struct", fl), "a"))
+            if ty == STR and "pst" in names:
+                opts.append(("facc", V("pst"), "b"))
+            if ty == multi(INT, FLOAT) and "psu" in names:
+                opts.append(("facc", V("psu"), "c" if wrong else "a"))
             if ty == INT and "pum" in names and "ci" in names and r.random() < 0.2:
                 # the parameter types `mut int` and `mut (int|float)` have no common lower bound but `!`: never callable
                 opts.append(("call", V("pum"), [V("ci")]))
